@@ -42,7 +42,7 @@ H2Rest(hs) ==
     ELSE IF Head(hs)[3] = "host" \/ Head(hs)[3] = ":authority" \/ Head(hs)[3] = ":method"
             \/ Head(hs)[3] = ":path" \/ Head(hs)[3] = ":scheme" \/ Head(hs)[3] = ":protocol"
          THEN H2Rest(Tail(hs))
-         ELSE <<<<Head(hs)[1], Head(hs)[2]>>>> \o H2Rest(Tail(hs))
+         ELSE <<<<Head(hs)[3], Head(hs)[2]>>>> \o H2Rest(Tail(hs))
 
 HdrVal(hs, lname) == IF \E i \in 1..Len(hs) : hs[i][3] = lname
                      THEN hs[CHOOSE i \in 1..Len(hs) : hs[i][3] = lname /\ \A j \in 1..(i - 1) : hs[j][3] # lname][2]
